@@ -158,6 +158,10 @@ def cases(tier, rnd):
         out.append(run_case(rnd, 2, [variant("0", finish=[0, 1]), variant(hs(), start=[1, 0], finish=[1, 0]), variant(hs(), oneworker=25)]))
         out.append(run_case(rnd, 3, [variant("0"), variant(hs(), cpus=2, finish=perm_not_identity(rnd, 3), sleep={"0": [0.5, 0]})]))
         out.append(cluster_case(rnd, 1, [variant("0"), variant("1"), variant("2"), variant("3"), variant("4")], tied=True))
+        # many simultaneous outliers (string-named mutations): any iteration over a set / dict of data points or names
+        # that feeds a draw or a sum shows up as a dependence on the hash seed
+        out.append(run_case(rnd, 1, [variant(str(h)) for h in range(4)], n_mut=8, outlier_prob=0.4, num_iters=12,
+                            subtree_update_prob=0.4))
         return out + tail
     out.append({"kind": "zero_chains"})
     for i in range(21):
@@ -186,6 +190,10 @@ def cases(tier, rnd):
             over["num_samples_data_point"], over["num_samples_prune_regraph"] = 2, 0
         over["num_iters"] = rnd.randint(15, 60)
         out.append(run_case(rnd, k, vs, n_mut=rnd.randint(3, 8), **over))
+    for op in (0.3, 0.5):
+        out.append(run_case(rnd, 1, [variant(str(h)) for h in range(5)], n_mut=rnd.randint(7, 10), outlier_prob=op,
+                            num_iters=rnd.randint(15, 30), subtree_update_prob=rnd.choice([0.0, 0.5])))
+    out.append(run_case(rnd, 2, [variant(str(h), finish=[0, 1]) for h in range(3)], n_mut=8, outlier_prob=0.4, num_iters=15))
     out.append(cluster_case(rnd, 1, [variant("0"), variant("random", cpus=1), variant(hs())]))
     out.append(cluster_case(rnd, 2, [variant("0", finish=[0, 1]), variant("random", start=[1, 0], finish=[1, 0])]))
     out.append(cluster_case(rnd, 1, [variant(str(h)) for h in range(8)], tied=True))
